@@ -14,7 +14,7 @@ import os
 import random
 
 import vlib
-from checks import brokerlib
+from checks import brokerlib, racelib
 
 GEN_DOMAIN = 'CONSTANTS L = {%s} N = %d\nSPECIFICATION Spec\nCHECK_DEADLOCK FALSE\n'
 GEN_HIST = ('CONSTANTS Sessions = {%s} Filters <- %s QoSes = {%s} Depth = %d\n'
@@ -72,6 +72,16 @@ def classify(scn, line):
         tags.append("extra")
     mode = scn[0].get("mode", "?")
     return mode + ":" + "+".join(sorted(set(tags)))
+
+
+def _pubs(scn):
+    out = []
+    for o in scn["ops"]:
+        if o["op"] == "pub":
+            out.append(o)
+        elif o["op"] == "race":
+            out += [x for x in [o["a"]] + o["b"] if x["op"] == "pub"]
+    return [o for o in out if o.get("p") in ("new", "newer")]
 
 
 def check(run):
@@ -179,9 +189,16 @@ def check(run):
     validated += bvalidated
     tstates += btstates
     rejected = rejected + brejected
+    # ---- overlapping operations (publishes overlapping subscribe / unsubscribe): one operation parked at a gate inside its handler, others completed meanwhile
+    rn, rparked, rnev, rval, rrej, rts = racelib.check_family(run, "C01", v, keep=lambda s: not any(o.get('r') for o in _pubs(s)))
+    validated += rval
+    tstates += rts
     rc = v.finish()
     vlib.write_evidence(run, {
         "broker_level_scenarios": len(bscns), "broker_level_events": bnev,
+        "overlapping_operations": {"interleavings": rn, "parked_at_their_gate": rparked, "events": rnev, "rejections": rrej,
+                                   "rule": "one client operation (SUBSCRIBE / UNSUBSCRIBE / PUBLISH) is parked at a scheduler gate at a replicated-state call "
+                                           "inside its handler while others run to completion; RaceTrace.tla requires what holds under every interleaving"},
         "traces_validated_against_impl": validated,
         "evaluations": nev,
         "distinct_nontrivial": len(scns),
@@ -208,6 +225,8 @@ def replay(run, path):
     rp = json.load(open(path))
     if rp.get("kind") == "broker":
         return brokerlib.replay(run, "C01", path)
+    if rp.get("kind") == "race":
+        return racelib.replay(run, "C01", path)
     spath = os.path.join(run.scratch, "scenarios.ndjson")
     with open(spath, "w") as f:
         f.write(json.dumps(rp["scenario"]) + "\n")
